@@ -565,10 +565,16 @@ def decide(prop, rep, cases, impl, model, spec, P):
 
 
 def run(prop, tier, seed):
-    P = LEAF[prop]
     rep = vlib.Report(prop, tier, seed)
-    rng = random.Random(seed * 7919 + hash(prop) % 1000 if False else seed * 7919 + int(prop[1:]))
-    vlib.proof_step(rep, P.module)
+    rng = random.Random(seed * 7919 + int(prop[1:]))
+    check_into(rep, prop, tier, rng)
+    return rep.finish()
+
+
+def check_into(rep, prop, tier, rng, prove=True):
+    P = LEAF[prop]
+    if prove:
+        vlib.proof_step(rep, P.module)
     dist = Dist()
     corpus = P.corpus() + corpus_files(prop)
     cases = corpus + P.generate(rng, tier, dist)
@@ -577,7 +583,7 @@ def run(prop, tier, seed):
     except vlib.HarnessBuildError as e:
         rep.broken("correspondence:%s:harness-does-not-build" % prop, str(e)[-1500:])
         rep.coverage.update(evaluations=0, distinct_nontrivial=0, samples=[], rule="harness did not build")
-        return rep.finish()
+        return
     nontriv, ncorr = decide(prop, rep, cases, impl, model, spec, P)
     idx = sorted(rng.sample(range(len(cases)), min(6, len(cases))))
     rep.coverage.update(
@@ -590,7 +596,6 @@ def run(prop, tier, seed):
         samples=[dict(case=cases[i], implementation=impl[i], model=model[i], spec=spec[i]) for i in idx])
     rep.assumptions = ["the hand-written Gallina model corresponds to the C++ code only as far as the executed cases show",
                        "std::string / std::to_string / std::getline semantics as modelled"]
-    return rep.finish()
 
 
 def corpus_files(prop):
